@@ -63,10 +63,11 @@ func (a *application) start(mode gen.ApplicationMode, options gen.ApplicationOpt
 
 		pid, err := a.node.spawn(item.Factory, opts)
 		if err != nil {
-			a.group.Range(func(pid gen.PID, _ bool) bool {
+			// Kill removes the process from the group, so it can not be
+			// called within the Range callback (the group is locked there)
+			for _, pid := range a.members() {
 				a.node.Kill(pid)
-				return true
-			})
+			}
 			atomic.StoreInt32(&a.state, int32(gen.ApplicationStateLoaded))
 			return err
 		}
@@ -120,14 +121,13 @@ func (a *application) stop(force bool, timeout time.Duration) error {
 	// update mode to prevent triggering 'permantent' mode
 	a.mode = gen.ApplicationModeTemporary
 
-	a.group.Range(func(pid gen.PID, _ bool) bool {
+	for _, pid := range a.members() {
 		if force {
 			a.node.Kill(pid)
 		} else {
 			a.node.SendExit(pid, gen.TerminateReasonShutdown)
 		}
-		return true
-	})
+	}
 
 	if force {
 		a.reason = gen.TerminateReasonKill
@@ -141,6 +141,16 @@ func (a *application) stop(force bool, timeout time.Duration) error {
 	case <-time.After(timeout):
 		return gen.ErrApplicationStopping
 	}
+}
+
+// members returns the pids of the running group members
+func (a *application) members() []gen.PID {
+	var pids []gen.PID
+	a.group.Range(func(pid gen.PID, _ bool) bool {
+		pids = append(pids, pid)
+		return true
+	})
+	return pids
 }
 
 func (a *application) terminate(pid gen.PID, reason error) {
